@@ -86,6 +86,10 @@ theorem exit_code_convention :
     Gen.cdInvalidCounter = some 1 ∧ Gen.cdDieUsesErrorCode = true ∧ Gen.cdInvalidCounterOnMaxInstance = true ∧
     Gen.cdMainReturnsZero = true := by decide
 
+/-- the shared helper behind the `w` clauses really is warn-aware and refuses out-of-range counters and to-counters, and a
+    pure query returns before the manager opens (creates / truncates) the output — both read off the sources on every run -/
+theorem manager_conventions : Gen.cdCheckCounterValidityOk = true ∧ Gen.cdQueryReturnsBeforeOutput = true := by decide
+
 -- non-vacuity
 example : Gen.registrations.length = 73 := by decide
 example : (run [.n, .q, .c, .n, .r, .n] ⟨false, false, false⟩ {}).rewrote = true := by decide
